@@ -72,7 +72,7 @@ package json
 //@ func json.(*parserState).reset
 //@   requires p != nil
 //@   assigns p.ib, p.currPath, p.firstToken, p.querySatisfied
-//@   ensures [C04_reset_done] p.ib == 0 && len(p.currPath) == 0 && p.firstToken == TokInvalid && !p.querySatisfied
+//@   ensures [C04C13_reset_done] p.ib == 0 && len(p.currPath) == 0 && p.firstToken == TokInvalid && !p.querySatisfied
 
 //@ func json.(*parserState).consumeSpace
 //@   requires ibOK(p, b)
